@@ -86,7 +86,7 @@ func TransformModFile(data string) (*ModFile, error) { //nolint:cyclop
 			Line:   0,
 			Column: 0,
 		})
-	case yamlModFile.Schema.Tag != stringNode:
+	case yamlModFile.Schema.Tag != stringNode || yamlModFile.Schema.Kind != yaml.ScalarNode:
 		errors = multierror.Append(errors, &ModFileValidationError{
 			Msg:    "unexpected schema type, expected string got value " + yamlModFile.Schema.Value,
 			Line:   yamlModFile.Schema.Line - 1,
@@ -113,7 +113,8 @@ func TransformModFile(data string) (*ModFile, error) { //nolint:cyclop
 			Line:   0,
 			Column: 0,
 		})
-	case yamlModFile.Contents.Tag != seqNode:
+	// a tag can be written in front of anything (`contents: !!seq {a.fga: b.fga}`): the node has to be a sequence
+	case yamlModFile.Contents.Tag != seqNode || yamlModFile.Contents.Kind != yaml.SequenceNode:
 		errors = multierror.Append(errors, &ModFileValidationError{
 			Msg:    "unexpected contents type, expected list of strings got value " + yamlModFile.Contents.Value,
 			Line:   yamlModFile.Contents.Line - 1,
@@ -123,7 +124,7 @@ func TransformModFile(data string) (*ModFile, error) { //nolint:cyclop
 		contents := []ModFileStringProperty{}
 
 		for _, file := range yamlModFile.Contents.Content {
-			if file.Tag != stringNode {
+			if file.Tag != stringNode || file.Kind != yaml.ScalarNode {
 				errors = multierror.Append(errors, &ModFileValidationError{
 					Msg:    "unexpected contents item type, expected string got value " + file.Value,
 					Line:   file.Line - 1,
